@@ -136,7 +136,7 @@ func Apply(repo string, rules []Rule) (map[string][]byte, []string, error) {
 		for k := range r.Selectors {
 			cands[strings.SplitN(k, ".", 2)[0]] = true
 		}
-		dropUnused(f, cands)
+		dropUnused(f, cands, len(r.ReplaceBody) > 0)
 		// comments are dropped to avoid misplacement after body replacement
 		f.Comments = keepBuildTags(f)
 		var buf bytes.Buffer
@@ -274,7 +274,7 @@ func importName(im *ast.ImportSpec) string {
 }
 
 // dropUnused removes imports that are no longer referenced after redirection.
-func dropUnused(f *ast.File, cands map[string]bool) {
+func dropUnused(f *ast.File, cands map[string]bool, allStd bool) {
 	used := map[string]bool{}
 	ast.Inspect(f, func(n ast.Node) bool {
 		if se, ok := n.(*ast.SelectorExpr); ok {
@@ -286,8 +286,15 @@ func dropUnused(f *ast.File, cands map[string]bool) {
 	})
 	for _, im := range append([]*ast.ImportSpec(nil), f.Imports...) {
 		n := importName(im)
-		if n == "_" || n == "." || n == "C" || !cands[n] {
+		if n == "_" || n == "." || n == "C" {
 			continue
+		}
+		if !cands[n] {
+			// after a body replacement any standard-library import may have become unused
+			p, _ := strconv.Unquote(im.Path.Value)
+			if !allStd || strings.Contains(strings.SplitN(p, "/", 2)[0], ".") {
+				continue
+			}
 		}
 		if !used[n] {
 			p, _ := strconv.Unquote(im.Path.Value)
